@@ -472,10 +472,54 @@ theorem setValue_last (x : AState) (k v : Nat) : (x.setValue k v).1.last = none 
   · exact deleteValue_last x k
   · exact Or.inl rfl
 
-theorem deploy_inv (w : World) (pool) (h : WInv w pool) (a c : Nat) : WInv (w.deploy a c) pool := by
+theorem initContract_last (x : AState) : x.initContract.last = none ∨ x.initContract = x := by
+  unfold AState.initContract; split
+  · exact Or.inr rfl
+  · exact Or.inl rfl
+
+theorem deployContract_last (x : AState) (c : Nat) : (x.deployContract c).last = none ∨ x.deployContract c = x := by
+  unfold AState.deployContract; split
+  · exact Or.inr rfl
+  · exact Or.inl rfl
+
+theorem acceptContract_last (x : AState) (c : Nat) : (x.acceptContract c).1.last = none ∨ (x.acceptContract c).1 = x := by
+  unfold AState.acceptContract
+  split
+  · split
+    · exact Or.inr rfl
+    · split
+      · exact Or.inr rfl
+      · exact Or.inl rfl
+  · exact Or.inr rfl
+
+theorem rejectContract_last (x : AState) (c : Nat) : (x.rejectContract c).1.last = none ∨ (x.rejectContract c).1 = x := by
+  unfold AState.rejectContract
+  split
+  · split
+    · exact Or.inr rfl
+    · split
+      · exact Or.inr rfl
+      · exact Or.inl rfl
+  · exact Or.inr rfl
+
+theorem deploy_last (x : AState) (c : Nat) : (x.deploy c).last = none ∨ x.deploy c = x := by
+  unfold AState.deploy
+  rcases acceptContract_last (x.initContract.deployContract c) c with h | h
+  · exact Or.inl h
+  · rw [h]
+    rcases deployContract_last x.initContract c with h2 | h2
+    · exact Or.inl h2
+    · rw [h2]; exact initContract_last x
+
+/-- any mutation through the account state that either clears `last` or changes nothing keeps the invariant -/
+theorem mutate_inv (w : World) (pool) (h : WInv w pool) (a : Nat) (f : AState → AState)
+    (hf : ∀ x, (f x).last = none ∨ f x = x) :
+    WInv ((w.getAccountState a).1.putState a (f (w.getAccountState a).2)) pool := by
   have g := getAccountState_spec w pool h a
-  unfold World.deploy
-  exact putState_inv _ pool g.1 a _ _ g.2.1 (Or.inl rfl)
+  exact putState_inv _ pool g.1 a _ _ g.2.1 (hf _)
+
+theorem deploy_inv (w : World) (pool) (h : WInv w pool) (a c : Nat) : WInv (w.deploy a c) pool :=
+  mutate_inv w pool h a (fun x => x.deploy c) (fun x => deploy_last x c)
 
 theorem setObjGraph_last (x : AState) (nh g : Nat) : (x.setObjGraph nh g).last = none ∨ x.setObjGraph nh g = x := by
   unfold AState.setObjGraph; split
@@ -744,31 +788,32 @@ theorem init_inv : WInv World.init (fun _ _ => False) := by
 def obsBal (d : Option AcctData) : Int := (d.map (·.bal)).getD 0
 /-- storage value of an account in the abstract state (absent = none) -/
 def obsGet (d : Option AcctData) (k : Nat) : Option Nat := d.bind (·.get k)
-/-- current contract code / its object graph in the abstract state (absent = none) -/
-def obsCode (d : Option AcctData) : Option Nat := d.bind (·.code)
+/-- contract part of an account in the abstract state (absent = not a contract) -/
+def obsIsContract (d : Option AcctData) : Bool := (d.map (·.isContract)).getD false
+def obsCur (d : Option AcctData) : Option Nat := d.bind (·.cur)
+def obsNext (d : Option AcctData) : Option (Nat × Bool) := d.bind (·.next)
 def obsGraph (d : Option AcctData) : Option Graph := d.bind (·.graph)
 
 theorem obs_absSt (x : AState) :
     obsBal (absSt x) = x.hdr.bal ∧ (∀ k, obsGet (absSt x) k = kvGet (x.store.getD []) k) ∧
-    obsCode (absSt x) = x.hdr.code ∧ obsGraph (absSt x) = x.hdr.graph := by
+    obsIsContract (absSt x) = x.hdr.isContract ∧
+    (x.hdr.isContract = true → obsCur (absSt x) = x.hdr.cur ∧ obsNext (absSt x) = x.hdr.next ∧
+      obsGraph (absSt x) = x.hdr.graph) := by
   unfold absSt contentEmpty
   split
   · rename_i he
-    simp only [Bool.and_eq_true, beq_iff_eq] at he
-    have hc : x.hdr.code = none := by
-      cases h : x.hdr.code with
-      | none => rfl
-      | some c => rw [h] at he; simp at he
-    refine ⟨by simp [obsBal, he.1.1], fun k => ?_, by simp [obsCode, hc], by simp [obsGraph, Hdr.graph, hc]⟩
-    have : x.store.getD [] = [] := by
-      cases hs : x.store with
-      | none => rfl
-      | some l =>
-        cases l with
-        | nil => rfl
-        | cons p ps => rw [hs] at he; simp [normStore] at he
-    rw [this]; rfl
-  · exact ⟨rfl, fun k => rfl, rfl, rfl⟩
+    simp only [Bool.and_eq_true, beq_iff_eq, Bool.not_eq_true'] at he
+    refine ⟨by simp [obsBal, he.1.1], fun k => ?_, by simp [obsIsContract, he.1.2], fun hc => ?_⟩
+    · have : x.store.getD [] = [] := by
+        cases hs : x.store with
+        | none => rfl
+        | some l =>
+          cases l with
+          | nil => rfl
+          | cons p ps => rw [hs] at he; simp [normStore] at he
+      rw [this]; rfl
+    · rw [he.1.2] at hc; cases hc
+  · exact ⟨rfl, fun k => rfl, rfl, fun _ => ⟨rfl, rfl, rfl⟩⟩
 
 theorem kvGet_kvDel (l : KV) (k k' : Nat) : kvGet (kvDel l k) k' = if k' = k then none else kvGet l k' := by
   unfold kvGet kvDel
@@ -853,6 +898,10 @@ theorem step_inv (h : Hist) (op : Op) (hi : Inv h) : Inv (h.step op) := by
   | setValue a k v => exact setValue_inv _ _ hi a k v
   | deleteValue a k => exact deleteValue_inv _ _ hi a k
   | deploy a c => exact deploy_inv _ _ hi a c
+  | initContract a => exact mutate_inv _ _ hi a (fun x => x.initContract) initContract_last
+  | deployContract a c => exact mutate_inv _ _ hi a (fun x => x.deployContract c) (fun x => deployContract_last x c)
+  | acceptContract a c => exact mutate_inv _ _ hi a (fun x => (x.acceptContract c).1) (fun x => acceptContract_last x c)
+  | rejectContract a c => exact mutate_inv _ _ hi a (fun x => (x.rejectContract c).1) (fun x => rejectContract_last x c)
   | setObjGraph a nh g => exact setObjGraph_inv _ _ hi a nh g
   | touch a => exact (getAccountState_spec _ _ hi a).1
   | peek a => exact (getAccountSnapshot_spec _ _ hi a).2.2
